@@ -64,9 +64,8 @@ def handle (cmd : String) (args : List String) : Option String :=
   | "sfnt.searchrange" =>
     match parseNats? args with
     | some [n, sz] =>
-      match searchRange n sz with
-      | none => some "trap"
-      | some (a, b, c) => some s!"{a} {b} {c}"
+      let (a, b, c) := searchRange n sz
+      some s!"{a} {b} {c}"
     | _ => none
   | "sfnt.open" =>
     match args with
